@@ -491,6 +491,21 @@ def layer_correspondence(ctx, facts):
                 props.append((pv["_class"], sorted(po.keys())))
         rows.append((name, keys_in, keys_out, head, props))
         ctx.case({"layer": name, "n_keys": len(keys_in)}, True)
+    # the multinet encoder: same key filter, signature MultiNet, members keep names / order / classes
+    try:
+        mn = c15_nets.multinet(ctx.rng)
+        mn["_internal_thing"] = 1
+        mdoc = json.loads(pp.to_json(mn))
+        rows.append(("multinet", list(mn.keys()), list(mdoc["_object"].keys()), ("pandapipesNet", "pandapipes.pandapipes_net"), []))
+        ctx.case({"layer": "multinet"}, True)
+        nets = mdoc["_object"]["nets"]
+        got = [(k, v.get("_class")) for k, v in nets.items()]
+        exp = [(k, type(v).__name__) for k, v in mn["nets"].items()]
+        if mdoc.get("_class") != "MultiNet" or got != exp:
+            ctx.violation({"clause": "multinet_signature"}, "multinet written with class %r, members %s (expected MultiNet, %s)"
+                          % (mdoc.get("_class"), got, exp), {})
+    except Exception as e:  # noqa: BLE001 - reported by run_diff
+        ctx.note("multinet layer correspondence skipped: %r" % (e,))
     body = ";\n".join("(%s, %s)" % (clist([cstr(k) for k in kin]), clist([cstr(k) for k in kout])) for _, kin, kout, _, _ in rows)
     txt = ("From Coq Require Import String List ZArith Bool.\nFrom PP Require Import C15.Model Gen.CodecFacts.\nImport ListNotations.\n"
            "Open Scope string_scope.\nFixpoint seqb (a b : list string) : bool := match a, b with [], [] => true | x :: r, y :: s => String.eqb x y && seqb r s | _, _ => false end.\n"
